@@ -4,6 +4,18 @@ import json
 ALL = ["C%02d" % i for i in range(1, 21)]
 # id -> (category, level text, level note, technique, design ref)
 CHECKS = {
+ "C16": ("exploration",
+   "generated workspaces with -pN/-R spellings and differing ---/+++ names whose resolution depends on files created, deleted or renamed earlier in the same run; each is pushed sequentially, in parallel and split over two invocations; all must equal the model tree and the backup entries must name the resolved path",
+   "trusts the model's statement of the resolution rule (old name if it currently exists, else new name)",
+   "property-based testing: workspace generator with name-resolution model; oracle = model comparison + agreement of three execution modes"),
+ "C17": ("exploration",
+   "generated workspaces put into a consistent 'm patches applied' state and then made inconsistent in one of ~12 ways (applied-patches edited/reordered/longer, unknown or applied goal, missing or unparseable patch at any position); exit status must be exactly 1 with a message and the full snapshot unchanged",
+   "blank lines/comments in applied-patches are treated as consistent (the tool accepts them)",
+   "property-based testing: generated inconsistent states; oracle = exit status 1 + unchanged snapshot invariant"),
+ "C19": ("exploration",
+   "generated escaping file names (.., absolute, quoted spellings) in every header position x strip level x patch kind, run inside a sentinel directory with victim files where the names point; nothing outside the workspace may change and an escaping patch must be refused with exit 1",
+   "escape judged lexically after stripping; names with '..' that stay inside may be refused or applied",
+   "property-based testing: grammar-based name generator; oracle = sentinel snapshot invariant + refusal"),
  "C08": ("exploration",
    "generated workspaces, optionally with prior applied state, pushed with every backup mode/count/goal/thread combination; .pc/** is compared file by file with the model state just before each patch of the N-window, nothing else may exist under .pc, and a simulated pop (restore newest-first) must recreate the model tree before the window",
    "trusts the tree model; absent and zero-length files are identified after the simulated pop (quilt's format cannot tell them apart)",
